@@ -17,7 +17,7 @@ from .contract import Contract, Loop
 
 DROPPED_CALLS = ('logging.debug', 'logging.info', 'logging.warning', 'logging.error',
                  'print', 'sys.stdout.write', 'sys.stdout.flush')
-LIB_CONSTS = {'io.SEEK_SET': 0, 'io.SEEK_CUR': 1, 'io.SEEK_END': 2}
+LIB_CONSTS = {'io.SEEK_SET': 0, 'io.SEEK_CUR': 1, 'io.SEEK_END': 2, 'AES.MODE_ECB': 1}
 EXC_PARENTS = {'KeyError': 'LookupError', 'IndexError': 'LookupError', 'LookupError': 'Exception',
                'ValueError': 'Exception', 'TypeError': 'Exception', 'AttributeError': 'Exception',
                'AssertionError': 'Exception', 'ZeroDivisionError': 'ArithmeticError',
@@ -995,6 +995,16 @@ class Engine:
             return LIB_CONSTS[t]
         if ('attr:' + t) in self.c.models:
             return self.c.models['attr:' + t](self)
+        if isinstance(e.value, ast.Name) and self.lookup_scope(e.value.id) is None and e.value.id not in self.world:
+            cls = self.src.find_class(e.value.id)
+            if cls is not None:
+                # class attribute with a constant initialiser (e.g. PlayReady.DRM_AES_KEYSIZE_128 = 16)
+                for st in cls.body:
+                    if isinstance(st, ast.Assign) and len(st.targets) == 1 and isinstance(st.targets[0], ast.Name) \
+                            and st.targets[0].id == e.attr and isinstance(st.value, ast.Constant):
+                        return st.value.value
+                if self.find_contract(e.value.id, e.attr) is not None:
+                    return BoundMethod(Opaque('class:' + e.value.id), e.attr)
         base = self.eval(e.value)
         return self.getattr(base, e.attr, t)
 
@@ -1284,6 +1294,10 @@ class Engine:
                 if isinstance(td, TD) and zint(k).sort() == INT:
                     return TD(zint(td.us) * zint(k))
             raise Unsupported(f'time arithmetic {txt}')
+        if z3.is_bv(a) or z3.is_bv(b):
+            if isinstance(op, ast.BitXor) and z3.is_bv(a) and z3.is_bv(b):
+                return a ^ b
+            raise Unsupported(f'byte arithmetic {txt}')
         if hasattr(a, 'binop'):
             return a.binop(self, op, b, False)
         if hasattr(b, 'binop'):
@@ -1529,6 +1543,13 @@ class Engine:
             if name in self.world and callable(self.world[name]):
                 return self.call_value(self.world[name], args, kwargs, e)
             raise Unsupported(f'{self.c.qual}: unmodelled call {ftxt}(...)')
+        if isinstance(e.func, ast.Attribute) and isinstance(e.func.value, ast.Name) \
+                and self.lookup_scope(e.func.value.id) is None and e.func.value.id not in self.world \
+                and self.find_contract(e.func.value.id, e.func.attr) is not None and ftxt not in self.c.models:
+            # ClassName.method(...): class / static method under contract
+            args, kwargs = self.args(e)
+            return self.call_contract_or_inline(self.find_contract(e.func.value.id, e.func.attr),
+                                                Opaque('class:' + e.func.value.id), args, kwargs)
         if isinstance(e.func, ast.Attribute):
             if ftxt in self.c.ctors:
                 args, kwargs = self.args(e)
@@ -1616,6 +1637,10 @@ class Engine:
             return None
         if isinstance(recv, Slice) and name == 'tobytes':
             return recv
+        if isinstance(recv, str) and name == 'join' and isinstance(args[0], PyList) and args[0].items \
+                and all(type(x).__name__ == 'BSeq' for x in args[0].items):
+            from .models.bytesmodel import join
+            return join(recv, args[0].items)
         if recv == '' and name == 'join' and isinstance(args[0], PyList):
             from .models.text import Joined
             return Joined(list(args[0].items))
@@ -1859,7 +1884,17 @@ class Engine:
             tn = [ast.unparse(x) for x in (t.elts if isinstance(t, ast.Tuple) else [t])]
             return self.isinstance(v, tn)
         if name == 'str':
+            from .models.bytesmodel import BSeq
+            if args and isinstance(args[0], BSeq) and len(args) == 2 and args[1] == 'ascii':
+                return args[0]          # str(<hex bytes>, 'ascii'): same characters
             return Opaque('str')
+        if name == 'bytearray':
+            from .models.bytesmodel import BSeq
+            if isinstance(args[0], int):
+                return BSeq([z3.BitVecVal(0, 8)] * args[0], 'bytearray')
+            if isinstance(args[0], BSeq):
+                return BSeq(args[0].items, 'bytearray')
+            raise Unsupported('bytearray(...)')
         if name == 'memoryview' and isinstance(args[0], Slice):
             return args[0]
         if name == 'divmod':
@@ -1947,6 +1982,16 @@ class Engine:
                 v = _dt.datetime(*args, tzinfo=_dt.timezone.utc) - _dt.datetime(1970, 1, 1, tzinfo=_dt.timezone.utc)
                 return DT(z3.IntVal(v // _dt.timedelta(microseconds=1)))
             raise Unsupported('datetime.datetime(...) with symbolic fields')
+        if ftxt in ('binascii.b2a_hex', 'binascii.a2b_hex', 'SHA256.new', 'AES.new'):
+            from .models import bytesmodel as bm
+            args, kw = self.args(e)
+            if ftxt == 'binascii.b2a_hex':
+                return bm.b2a_hex(args[0])
+            if ftxt == 'binascii.a2b_hex':
+                return bm.a2b_hex(self, args[0])
+            if ftxt == 'SHA256.new':
+                return bm.ShaModel()
+            return bm.AesModel(args[0])
         if ftxt == 'time.time':
             return fresh('time', REAL)
         if ftxt == 'io.BytesIO' and not e.args:
